@@ -435,3 +435,52 @@ func VH_C11_closepath_start_Q() {
 	vAssert("C11.closepath.next_subpath_starts_at_initial_point",
 		last.start.X == a && last.start.Y == bb && len(last.segs) == 1 && last.segs[0].end.X == ex && last.segs[0].end.Y == ey)
 }
+
+// C11-H1b: totality deeper inside a command: a concrete grammatical prefix that stops in the
+// middle of an argument list, followed by 0-2 (quick) / 0-3 (thorough) symbolic bytes over the
+// same alphabet.  This reaches the argument, flag and implicit-repetition code that strings of
+// <= 4 arbitrary bytes cannot reach.
+var vhC11Prefixes = []string{
+	"A5 5 0",         // arc: flags expected next
+	"M0 0a5 5 0 1",   // arc: second flag expected next
+	"M0 0A5 5 0 1 1", // arc: end point expected next
+	"M0 0A5 5 0 011", // arc: flags without separators
+	"M1 1C2 2 3",     // cubic: middle of the argument list
+	"M1 1S2 2",       // smooth cubic
+	"M1 1Q2 2",       // quadratic
+	"M0 0H",          // horizontal lineto without argument
+	"M0 0L1 1 2",     // implicit repetition, incomplete pair
+	"M1 1z",          // after closepath
+	"M1e",            // exponent without digits
+	"M.",             // lone dot
+}
+
+func VH_C11_parse_suffix_total() {
+	vhC11StubBuilders()
+	vStub("math.Pow10", vhC11Pow10)
+	vStub("!fmt.Errorf", vhC11Errorf)
+	pre := vhC11Prefixes[vChoose(0, len(vhC11Prefixes)-1)]
+	n := vChoose(0, 2+vTier())
+	b := make([]byte, 0, len(pre)+n)
+	b = append(b, pre...)
+	for i := 0; i < n; i++ {
+		c := vNondetByte()
+		vAssume(vhC11InAlphabet(c))
+		b = append(b, c)
+	}
+	vMerge(false)
+	vhC11Calls = 0
+	p, err, panicked := vhC11Parse(string(b))
+	vAssert("C11.suffix.no_panic", !panicked)
+	if panicked {
+		return
+	}
+	vAssert("C11.suffix.result_xor_error", (p != nil) != (err != nil))
+	vAssert("C11.suffix.progress", vhC11Calls <= len(b))
+	if err != nil {
+		pos, has := vhC11ErrPos(err)
+		if has {
+			vAssert("C11.suffix.errpos_in_input", 1 <= pos && pos <= len(b)+1)
+		}
+	}
+}
